@@ -161,7 +161,7 @@ def r2_line_coordinates(ctx):
 
 def r3_grid_coordinates(ctx):
     qn = "verde.coordinates.grid_coordinates"
-    K.roles_rule(ctx, "R3", [qn])
+    K.roles_rule(ctx, "R3", [qn], require={qn: [{"line-args"}, {"meshgrid-operands"}, {"region-arg"}]})
     paths = ctx.paths(qn)
     LC = "verde.coordinates.line_coordinates"
     reg = ("param", "region")
@@ -270,7 +270,7 @@ def r4_shape_to_spacing(ctx):
 
 def r5_profile(ctx):
     qn = "verde.coordinates.profile_coordinates"
-    K.roles_rule(ctx, "R5", [qn], with_return=False)
+    K.roles_rule(ctx, "R5", [qn], with_return=False, require={qn: [{"arctan2-args"}]})
     sp = Space()
     bi, bs = Builder(sp), Builder(sp)
     want = [q_ for q_ in spec.paths("coords.profile_coordinates") if q_.exit == "return"][0].value
